@@ -68,14 +68,15 @@ def components (g : G) : M (List G) := do
   componentsLoop g g.nodeIds vn [subgraph g vn ve]
 
 /-- `IgnoreSelfLoops`: strips e.From == e.To; returns the nodes carrying the stripped loops, in edge order -/
+def stripLoop (g : G) (e : Nat) : G :=
+  let v := (g.edge e).src
+  let g := g.modNode v fun n => { n with outs := G.removeE n.outs e }
+  let g := g.modNode v fun n => { n with ins := G.removeE n.ins e }
+  { g with elist := G.removeE g.elist e }
+
 def ignoreSelfLoops (g : G) : G × List Nat :=
   let del := g.elist.filter g.selfLoops
-  let g' := del.foldl (fun g e =>
-    let v := (g.edge e).src
-    let g := g.modNode v fun n => { n with outs := G.removeE n.outs e }
-    let g := g.modNode v fun n => { n with ins := G.removeE n.ins e }
-    { g with elist := G.removeE g.elist e }) g
-  (g', del.map fun e => (g.edge e).src)
+  (del.foldl stripLoop g, del.map fun e => (g.edge e).src)
 
 /-- the closure returned by IgnoreSelfLoops: re-adds the loops in their original order -/
 def restoreSelfLoops (g : G) (loops : List Nat) : G :=
